@@ -39,6 +39,7 @@ rev('C17', 'revert_22c321d_keep_the_lateststrategy_refresher_alive_when_a_refres
 rev('C14', 'revert_4843bf6_selfjoin_alias_filter.diff', 'row filter inherited by aliased scan')
 rev('C14', 'revert_inner_over_outer.diff', 'inner join condition factor below a nested outer join')
 rev('C06', 'revert_generate_feature_cache.diff', 'generate_feature memoised across contexts')
+rev('C13', 'revert_wrap_type_mapping.diff', 'empty wrap.Actor.type mapping skips the API defaults')
 rev('C08', 'revert_schema_getitem_cache.diff', 'Schema.__getitem__ memoised while reading attribute keys')
 rev('C08', 'revert_source_getitem_zip.diff', 'Source.__getitem__ zips schema with features')
 rev('C08', 'revert_source_eq.diff', 'Source equality ignores the (dynamic) source type the hash mixes in')
